@@ -1248,10 +1248,11 @@ def _admissible_input_not_refused(model, rep):
                     for k in x.keywords))
                 or (isinstance(x, ast.Call) and isinstance(
                     x.func, ast.Attribute) and x.func.attr == "astype"
-                    and src(x.func.value) == par and x.args
+                    and any(isinstance(y, ast.Name) and y.id == par
+                            for y in ast.walk(x.func.value)) and x.args
                     and "int" in src(x.args[0]))
                 for x in walk_no_nested(fn.node)
-                if getattr(x, "lineno", 0) <= uniq[0].lineno)
+                if getattr(x, "lineno", 0) <= uniq[0].lineno + 1)
             cons = f"{fn.short()}:marked-set-integer"
             if typed:
                 rep.ok(R6, cons, "the marked set is converted to an integer "
